@@ -149,7 +149,13 @@ Step ==
             /\ LET changed == e.ok /\ (e.npre # npre \/ e.nsamp # nsamp) IN
                /\ epoch' = [c \in 1..cfg.nchan |-> IF changed THEN Len(truth[c]) + Max(nsamp, e.nsamp) ELSE epoch[c]]
                /\ prims' = [c \in 1..cfg.nchan |-> IF changed THEN {} ELSE prims[c]]
-            /\ UNCHANGED <<cfg, trig, truth, checked, conn, cyc, everConn, runA, runB>>
+               \* a change of the record lengths restarts the edge-multi search on the retained history (edges recorded
+               \* with the old lengths may be recorded again with the new ones): order and disjointness of the record
+               \* sequence are statements about the records BETWEEN reconfigurations, judged here and started afresh
+               /\ IF changed /\ AnyEM THEN Report(EMPreds(IF cfg.run = "A" THEN runA ELSE runB)) ELSE TRUE
+               /\ runA' = IF changed /\ cfg.run = "A" THEN <<>> ELSE runA
+               /\ runB' = IF changed /\ cfg.run = "B" THEN <<>> ELSE runB
+            /\ UNCHANGED <<cfg, trig, truth, checked, conn, cyc, everConn>>
        [] e.ev = "Conn" ->
             /\ Report(When(RepSet(e) # ConnAfter(e), "C09_set")
                       \cup When(Len(e.rep) # Cardinality(RepSet(e)), "C09_reported"))
